@@ -6,6 +6,7 @@ import (
 	"fmt"
 	"os"
 	"path/filepath"
+	"sort"
 	"strings"
 	"sync"
 
@@ -61,6 +62,50 @@ func Spec(r *core.Run) []SpecExample {
 	return specEx
 }
 
+var (
+	corpusOnce sync.Once
+	corpusDocs []SpecExample
+)
+
+// Corpus loads the Markdown sources of the repository's own test-case files (_test/extra.txt, _test/options.txt and
+// extension/_test/*.txt in testutil's format). Only the sources are used, as seeds: they are the one place where the
+// extension syntaxes (tables, footnotes, definition lists, task lists, linkified URLs, typographic punctuation) and the
+// attribute syntax occur in realistic combinations. Example numbers are 10000·file + case index.
+func Corpus(r *core.Run) []SpecExample {
+	corpusOnce.Do(func() {
+		var files []string
+		for _, g := range []string{"_test/*.txt", "extension/_test/*.txt"} {
+			m, _ := filepath.Glob(filepath.Join(r.Repo, g))
+			sort.Strings(m)
+			files = append(files, m...)
+		}
+		const sep, end = "//- - - - - - - - -//", "//= = = = = = = = = = = = = = = = = = = = = = = =//"
+		for fi, f := range files {
+			b, err := os.ReadFile(f)
+			if err != nil {
+				continue
+			}
+			k := 0
+			for _, cs := range strings.Split(string(b), end) {
+				parts := strings.Split(cs, sep)
+				if len(parts) < 3 {
+					continue
+				}
+				md := strings.TrimPrefix(parts[1], "\n")
+				md = strings.TrimPrefix(md, "\r\n")
+				k++
+				corpusDocs = append(corpusDocs, SpecExample{Markdown: md, Example: 10000*(fi+1) + k, Section: filepath.Base(f)})
+			}
+		}
+	})
+	return corpusDocs
+}
+
+// Seeds returns the spec examples followed by the repository's test-case sources.
+func Seeds(r *core.Run) []SpecExample {
+	return append(append([]SpecExample{}, Spec(r)...), Corpus(r)...)
+}
+
 // EditTokens is the token set used for edit neighbourhoods of the spec examples.
 var EditTokens = []string{"a", " ", "\n", ">", "-", "#", "`", "*", "_", "[", "]", "(", ")", "<", "\\", "&", "|", ":", "~", "\t", "1.", "=", "+", "!", "\"", "[^1]", "\x00", "\x80", "あ", "\r", "{", "}", "."}
 
@@ -99,7 +144,7 @@ func Neighbours(src []byte, toks []string, f func([]byte)) int {
 // nbhdSub runs fn on the distance-≤1 neighbourhood of every spec example (quick: examples ≤ 60 bytes
 // and a reduced token set; thorough: all examples, full token set).
 func nbhdSub(r *core.Run, name string, cfg core.Cfg, fn func(s *core.Sub, cv *core.Conv, w []byte)) {
-	ex := Spec(r)
+	ex := Seeds(r)
 	toks := EditTokens
 	maxLen := 1 << 30
 	if r.Quick() {
@@ -108,11 +153,11 @@ func nbhdSub(r *core.Run, name string, cfg core.Cfg, fn func(s *core.Sub, cv *co
 	}
 	var sel []SpecExample
 	for _, e := range ex {
-		if len(e.Markdown) <= maxLen {
+		if len(e.Markdown) <= maxLen || e.Example >= 10000 && len(e.Markdown) <= 2*maxLen {
 			sel = append(sel, e)
 		}
 	}
-	s := r.Sub(name, fmt.Sprintf("every document at edit distance ≤1 (delete byte / insert token / replace byte by token, %d tokens) from each of %d spec examples (length ≤ %d) under %s; distinct = output/AST digest", len(toks), len(sel), maxLen, cfg))
+	s := r.Sub(name, fmt.Sprintf("every document at edit distance ≤1 (delete byte / insert token / replace byte by token, %d tokens) from each of %d seeds (spec examples of length ≤ %d and sources of the repository's own test-case files of twice that) under %s; distinct = output/AST digest", len(toks), len(sel), maxLen, cfg))
 	s.Bound = fmt.Sprintf("d=1 seeds=%d tokens=%d", len(sel), len(toks))
 	complete := core.ForEachIndex(len(sel), core.Workers(), func(w int) func(int) {
 		cv := core.NewConv(cfg)
